@@ -17,7 +17,13 @@ type C03Case struct {
 	// byte fuzzing, hand-written corpus) it is derived with the strict scanner
 	// and the case is skipped unless the text is in the property's domain.
 	Expect *V `json:"expect,omitempty"`
+	// Records > 0: Text is only the record; the document is a flat array (or, for RecordsInObject, an
+	// object with numbered keys) of Records copies of it - thousands of small containers at one level
+	Records         int  `json:"records,omitempty"`
+	RecordsInObject bool `json:"recordsinobject,omitempty"`
 }
+
+var c03Records = []string{`{"a":1,"b":"s"}`, `{"k":[1,"x"]}`, `["a",{"z":"y"}]`, `{"a":{"b":"c"}}`, `[[],{},"s"]`, `{"n":null,"t":true,"s":""}`, `[1.5e3,"\u0041"]`, `{"":""}`}
 
 // docGen renders a JSON document while drawing every degree of freedom the
 // grammar has, and records which features were used.
@@ -286,6 +292,11 @@ func (g *docGen) object(depth int) V {
 }
 
 func GenC03(t *rapid.T) *C03Case {
+	if oneIn(t, 2500, "records") {
+		// a long flat document: whatever the parser keeps per container it enters (a depth counter, a
+		// stack, a pool) must be released when it leaves it
+		return &C03Case{Text: c03Records[drawIdx(t, len(c03Records), "rec")], Records: []int{9999, 10001, 12000, 20000}[drawIdx(t, 4, "nrec")], RecordsInObject: oneIn(t, 3, "inobj")}
+	}
 	g := &docGen{t: t, feats: map[string]bool{}, maxW: 5}
 	depth := drawInt(t, 1, 6, "depth")
 	g.ws()
@@ -418,6 +429,26 @@ func c03Features(text string, j JV) map[string]bool {
 
 func CheckC03(c *C03Case, st *Stats) error {
 	text := c.Text
+	if c.Records > 0 {
+		var sb strings.Builder
+		open, closing := "[", "]"
+		if c.RecordsInObject {
+			open, closing = "{", "}"
+		}
+		sb.WriteString(open)
+		for i := 0; i < c.Records; i++ {
+			if i > 0 {
+				sb.WriteByte(',')
+			}
+			if c.RecordsInObject {
+				fmt.Fprintf(&sb, "\"k%d\":", i)
+			}
+			sb.WriteString(c.Text)
+		}
+		sb.WriteString(closing)
+		text = sb.String()
+		st.Count("flat_records")
+	}
 	if !utf8.ValidString(text) {
 		st.Count("skip.invalid_utf8")
 		return nil
@@ -486,6 +517,6 @@ func CheckC03(c *C03Case, st *Stats) error {
 
 func init() {
 	Register("C03",
-		"grammar-directed generation of RFC 8259 documents with array/object root: every whitespace position, per-character spelling choice (raw, short escape incl. \\/, \\uXXXX in upper/lower/mixed hex, surrogate-pair escapes), number spellings (canonical, -0, beyond-int64 integers, fractions with trailing zeros, e/E exponents with +/-/none and leading zeros, 17-digit), duplicate keys, empty containers, deep chains; expected tree known by construction and cross-checked against a strict scanner and encoding/json on every case. Thorough adds coverage-guided fuzzing of the generator and of raw bytes filtered to valid documents. Non-trivial = document uses an escape other than \\\" \\\\ \\n, a non-canonical number spelling, inter-token whitespace, a duplicate key, nesting >= 2 or a raw non-ASCII character. Distinct = distinct FNV-64a hash of the case JSON.",
+		"grammar-directed generation of RFC 8259 documents with array/object root: every whitespace position, per-character spelling choice (raw, short escape incl. \\/, \\uXXXX in upper/lower/mixed hex, surrogate-pair escapes), number spellings (canonical, -0, beyond-int64 integers, fractions with trailing zeros, e/E exponents with +/-/none and leading zeros, 17-digit), duplicate keys, empty containers, deep chains; expected tree known by construction and cross-checked against a strict scanner and encoding/json on every case. Thorough adds coverage-guided fuzzing of the generator and of raw bytes filtered to valid documents. One case in 2500 is a flat array or object of 9999-20000 copies of a small record. Non-trivial = document uses an escape other than \\\" \\\\ \\n, a non-canonical number spelling, inter-token whitespace, a duplicate key, nesting >= 2 or a raw non-ASCII character. Distinct = distinct FNV-64a hash of the case JSON.",
 		GenC03, CheckC03)
 }
